@@ -42,6 +42,11 @@ def dump (s : State) : String := Id.run do
       | some h => out := out ++ s!" {h}"
       | none => out := out ++ " -"
     out := out ++ ";"
+  out := out ++ " | above"
+  for k in List.range 3 do
+    let a := match instAt s (n + k) with | some _ => "X" | none => "-"
+    let b := match indexAt s (n + k) with | some _ => "X" | none => "-"
+    out := out ++ s!" {a}{b}"
   return out
 
 def handle (s : State) (line : String) : State × String :=
